@@ -561,6 +561,10 @@ def _container_role(model, c, carried):
             for s in subterms(init):
                 if s[0] == 'G' and len(s[3]) == 1:
                     src = s[3][0][0]
+                    if src[0] == 'C' and src[1] == 'enumerate' and len(src[2]) == 1:
+                        # positional flavour: dict((p.name, i) for i, p in enumerate(<POK bucket>)); its validity over
+                        # time is the business of rules_derived.rule_positional_index
+                        src = src[2][0]
                     b = model.sides.bucket(src)
                     if b == ('sig', iPOK) or (src[0] == 'V' and isinstance(src[3], tuple) and model.sides.bucket(src[3]) == ('sig', iPOK)) \
                             or (src[0] == 'SL' and _slice_base_role(model, src) == iPOK):
@@ -594,6 +598,8 @@ def _row_pok(model, sp, el, carried, pok_in, pok_out, vp_in, vp_out, vp_name, kw
     i = hi
     ok_i = i[0] == 'M' and i[1] == pok_in and i[2] == 'index' and len(i[3]) == 1 and i[3][0][0] == 'S' and i[3][0][2] == el \
         and i[3][0][1] in index_dicts
+    if not ok_i and i[0] == 'S' and i[2] == el and i[1] in index_dicts:
+        ok_i = True     # positional index: the recorded position itself
     if lo != NONE:
         add('table', 'row "names a positional-or-keyword parameter": head of the split does not start at the first parameter')
     if not ok_i:
@@ -691,15 +697,22 @@ def _row_pok(model, sp, el, carried, pok_in, pok_out, vp_in, vp_out, vp_name, kw
                 init = model.interp.obj_init.get(rebound)
                 if init is not None:
                     for s in subterms(init):
-                        if s[0] == 'G' and len(s[3]) == 1 and s[3][0][0] == pok_out:
+                        if s[0] == 'G' and len(s[3]) == 1 and (s[3][0][0] == pok_out or s[3][0][0] == ('C', 'enumerate', (pok_out,), ())):
                             ok = True
                 if not ok:
                     add('index', 'the name index is rebuilt from %s, not from the new parameter list' % show(init if init else rebound)[:80])
     if rebound is None:
-        # not rebound: acceptable only if the removed names are deleted from it
-        if not [1 for d in index_dicts for e in sp.effects if e.kind == 'mut' and e.target == d]:
+        # not rebound: acceptable only if the removed names are deleted from it -- the named parameter *and* the
+        # parameters after it, which left the positional-or-keyword list together with it
+        muts = [e for d in index_dicts for e, _g in walk_effects(sp.effects) if e.kind == 'mut' and e.target == d]
+        if not muts:
             add('index', 'the name index still lists the parameters that were converted to keyword-only or removed: '
                          'naming one of them again is not diagnosed / is looked up in a stale list')
+        else:
+            single = [e for e in muts if e.op in ('delitem', 'pop') and e.args and e.args[0] in (el, ('A', param, 'name'))]
+            if len(single) == len(muts):
+                add('index', 'only the named parameter is deleted from the name index; the parameters after it, which became keyword-only, '
+                             'are still listed: naming one of them later is looked up in the shortened list (ValueError: not in list)')
 
 
 def rule_mask_consume(check, model, rule):
